@@ -268,14 +268,26 @@ func StoresTo(cell *ssa.Alloc) (vals []ssa.Value, stores []*ssa.Store, escaped b
 // variables and captured variables, interface/type conversions that keep the
 // dynamic value) and returns the set of leaf definitions it may come from.
 func Origins(v ssa.Value) []ssa.Value {
-	seen := map[ssa.Value]bool{}
 	var out []ssa.Value
+	walkOrigins(v, nil, func(l ssa.Value) { out = append(out, l) })
+	return out
+}
+
+// walkOrigins is the traversal behind Origins. pre (may be nil) is asked at
+// every node before it is resolved further: when it returns true the node is
+// accepted as it is and not followed. leaf receives every node that cannot be
+// resolved further.
+func walkOrigins(v ssa.Value, pre func(ssa.Value) bool, leaf func(ssa.Value)) {
+	seen := map[ssa.Value]bool{}
 	var walk func(v ssa.Value)
 	walk = func(v ssa.Value) {
 		if v == nil || seen[v] {
 			return
 		}
 		seen[v] = true
+		if pre != nil && pre(v) {
+			return
+		}
 		switch x := v.(type) {
 		case *ssa.Phi:
 			for _, e := range x.Edges {
@@ -291,7 +303,7 @@ func Origins(v ssa.Value) []ssa.Value {
 					if a, isLocal := x.X.(*ssa.Alloc); isLocal && a == cell && !capturedOrEscaped(cell) {
 						vals, complete := reachingStores(x, cell)
 						if !complete {
-							out = append(out, v)
+							leaf(v)
 						}
 						for _, s := range vals {
 							walk(s)
@@ -304,7 +316,7 @@ func Origins(v ssa.Value) []ssa.Value {
 					}
 					vals, _, escaped := StoresTo(cell)
 					if escaped || len(vals) == 0 {
-						out = append(out, v)
+						leaf(v)
 					}
 					for _, s := range vals {
 						walk(s)
@@ -312,13 +324,13 @@ func Origins(v ssa.Value) []ssa.Value {
 					return
 				}
 			}
-			out = append(out, v)
+			leaf(v)
 		case *ssa.Parameter:
 			if a := BoundArg(x); a != nil {
 				walk(a)
 				return
 			}
-			out = append(out, v)
+			leaf(v)
 		case *ssa.FreeVar:
 			if b := FreeVarBinding(x); b != nil {
 				if _, isCell := b.(*ssa.Alloc); !isCell {
@@ -326,38 +338,41 @@ func Origins(v ssa.Value) []ssa.Value {
 					return
 				}
 			}
-			out = append(out, v)
+			leaf(v)
 		default:
-			out = append(out, v)
+			leaf(v)
 		}
 	}
 	walk(v)
-	return out
 }
 
-// AllOrigins reports whether every origin of v satisfies pred (and there is
-// at least one).
+// AllOrigins reports whether every way v can be traced back ends in a value
+// satisfying pred (and there is at least one). pred is asked at every node on
+// the way, not only at the leaves: a parameter that is bound to an argument at
+// its function's only call site still counts as that parameter.
 func AllOrigins(v ssa.Value, pred func(ssa.Value) bool) bool {
-	os := Origins(v)
-	if len(os) == 0 {
-		return false
-	}
-	for _, o := range os {
-		if !pred(o) {
-			return false
-		}
-	}
-	return true
-}
-
-// AnyOrigin reports whether some origin of v satisfies pred.
-func AnyOrigin(v ssa.Value, pred func(ssa.Value) bool) bool {
-	for _, o := range Origins(v) {
-		if pred(o) {
+	ok, any := true, false
+	walkOrigins(v, func(n ssa.Value) bool {
+		if pred(n) {
+			any = true
 			return true
 		}
-	}
-	return false
+		return false
+	}, func(ssa.Value) { ok = false })
+	return ok && any
+}
+
+// AnyOrigin reports whether some node on the way back from v satisfies pred.
+func AnyOrigin(v ssa.Value, pred func(ssa.Value) bool) bool {
+	any := false
+	walkOrigins(v, func(n ssa.Value) bool {
+		if pred(n) {
+			any = true
+			return true
+		}
+		return false
+	}, func(ssa.Value) {})
+	return any
 }
 
 // IsResultOf reports whether v is result k of call c.
@@ -616,7 +631,7 @@ func BoundArg(p *ssa.Parameter) ssa.Value {
 	fn := p.Parent()
 	parent := fn.Parent()
 	if parent == nil {
-		return nil
+		return boundArgTopLevel(p)
 	}
 	idx := -1
 	for i, q := range fn.Params {
@@ -708,4 +723,108 @@ func sameBlockStore(load *ssa.UnOp, cell *ssa.Alloc) *ssa.Store {
 // (looking through the defer spill).
 func RetNil(r *ssa.Return, k int) bool {
 	return k < len(r.Results) && AllOrigins(r.Results[k], IsNilConst)
+}
+
+// ---------------------------------------------------------------------------
+// Private helpers with one call site
+
+var (
+	siteCache   = map[*ssa.Package]map[*ssa.Function][]ssa.CallInstruction{}
+	valueUses   = map[*ssa.Package]map[*ssa.Function]bool{}
+	noBindParam = map[*ssa.Function]bool{}
+)
+
+// pkgSites indexes, for a package, the static call sites of every function and
+// the functions that are also used as values (method values, callbacks).
+func pkgSites(pkg *ssa.Package) (map[*ssa.Function][]ssa.CallInstruction, map[*ssa.Function]bool) {
+	if m, ok := siteCache[pkg]; ok {
+		return m, valueUses[pkg]
+	}
+	sites := map[*ssa.Function][]ssa.CallInstruction{}
+	vals := map[*ssa.Function]bool{}
+	var fns []*ssa.Function
+	for _, mem := range pkg.Members {
+		switch m := mem.(type) {
+		case *ssa.Function:
+			fns = append(fns, WithAnon(m)...)
+		case *ssa.Type:
+			for _, t := range []types.Type{m.Type(), types.NewPointer(m.Type())} {
+				ms := pkg.Prog.MethodSets.MethodSet(t)
+				for i := 0; i < ms.Len(); i++ {
+					if f := pkg.Prog.MethodValue(ms.At(i)); f != nil && f.Pkg == pkg && f.Synthetic == "" {
+						fns = append(fns, WithAnon(f)...)
+					}
+				}
+			}
+		}
+	}
+	seen := map[*ssa.Function]bool{}
+	for _, f := range fns {
+		if seen[f] {
+			continue
+		}
+		seen[f] = true
+		AllInstrs(f, func(in ssa.Instruction) {
+			if c, ok := in.(ssa.CallInstruction); ok {
+				if cal := CalleeFn(c.Common()); cal != nil {
+					sites[cal] = append(sites[cal], c)
+				}
+			}
+			for _, op := range in.Operands(nil) {
+				if *op == nil {
+					continue
+				}
+				var used *ssa.Function
+				switch x := (*op).(type) {
+				case *ssa.Function:
+					used = x
+				case *ssa.MakeClosure:
+					if g, ok := x.Fn.(*ssa.Function); ok && g.Synthetic != "" && g.Object() != nil {
+						// bound-method wrapper: the method itself is used as a value
+						if mf := pkg.Prog.FuncValue(g.Object().(*types.Func)); mf != nil {
+							vals[mf] = true
+						}
+					}
+				}
+				if used != nil {
+					if c, ok := in.(ssa.CallInstruction); !ok || c.Common().Value != ssa.Value(used) {
+						vals[used] = true
+					}
+				}
+			}
+		})
+	}
+	siteCache[pkg] = sites
+	valueUses[pkg] = vals
+	return sites, vals
+}
+
+// OnlySite returns the single static call site of an unexported package-level
+// function or method that is never used as a value; nil otherwise.
+func OnlySite(fn *ssa.Function) ssa.CallInstruction {
+	if fn == nil || fn.Pkg == nil || fn.Parent() != nil || fn.Synthetic != "" || fn.Object() == nil || fn.Object().Exported() || noBindParam[fn] {
+		return nil
+	}
+	if fn.Name() == "init" || fn.Name() == "main" {
+		return nil
+	}
+	sites, vals := pkgSites(fn.Pkg)
+	if vals[fn] || len(sites[fn]) != 1 {
+		return nil
+	}
+	return sites[fn][0]
+}
+
+func boundArgTopLevel(p *ssa.Parameter) ssa.Value {
+	fn := p.Parent()
+	site := OnlySite(fn)
+	if site == nil {
+		return nil
+	}
+	for i, q := range fn.Params {
+		if q == p && i < len(site.Common().Args) {
+			return site.Common().Args[i]
+		}
+	}
+	return nil
 }
